@@ -249,6 +249,34 @@ def read_tables():
     T["magicints"] = [int(x) for x in re.findall(r"\d+", m.group(1))]
     T["firstidx"] = int(_one(r"#define FIRSTIDX (\d+)", s, "FIRSTIDX").group(1))
     T["raw_max"] = int(_one(r"if\(size<=(\d+)\)", s, "raw-float atom limit").group(1))
+    # ---- unit attributes written into the self-describing containers
+    ua = {}
+    h = dict(re.findall(r'self\._handle\.root\.(\w+)\.attrs\["units"\] = "([^"]+)"', _src("mdtraj/formats/hdf5.py")))
+    ua["h5"] = {k: h[k] for k in ("coordinates", "time", "cell_lengths", "cell_angles") if k in h}
+    ncnames = {"frame_coordinates": "coordinates", "frame_times": "time", "cell_lengths": "cell_lengths", "cell_angles": "cell_angles"}
+    n = re.findall(r'setattr\((\w+), "units", "(\w+)"\)', _src("mdtraj/formats/netcdf.py"))
+    ua["nc"] = {ncnames[k]: v for k, v in n if k in ncnames}
+    r = _src("mdtraj/formats/amberrst.py")
+    r = r[r.index("class AmberNetCDFRestartFile"):]
+    ua["ncrst"] = dict(re.findall(r'createVariable\("(\w+)"[^\n]*\)\s*\n\s*v\.units = "(\w+)"', r))
+    for k, d in ua.items():
+        if set(d) != {"coordinates", "time", "cell_lengths", "cell_angles"}:
+            raise ValueError("translator: unit attributes of %s not understood: %s" % (k, d))
+    T["unit_attrs"] = ua
+    # ---- DCD unit cell block: which quantity goes into / comes out of which of the six slots
+    d = _src("mdtraj/formats/dcd/src/dcdplugin.c")
+    w = d[d.index("int write_timestep("):]
+    w = w[:w.index("write_dcdstep(")]
+    ws = dict(re.findall(r"unitcell\[(\d)\] = ts->(\w+);", w))
+    ws.update(dict(re.findall(r"unitcell\[(\d)\] = sin\(\(M_PI_2 / 90\.0\) \* \(90\.0 - ts->(\w+)\)\);", w)))
+    rd = d[d.index("ts->A = unitcell["):]
+    rd = rd[:rd.index("} else {")]
+    rs = {k: v for v, k in re.findall(r"ts->(\w+)\s*= unitcell\[(\d)\];", rd)}
+    rs.update({k: v for v, k in re.findall(r"ts->(\w+)\s*= 90\.0 - asin\(unitcell\[(\d)\]\) \* 90\.0 / M_PI_2;", rd)})
+    if sorted(ws) != list("012345") or sorted(rs) != list("012345"):
+        raise ValueError("translator: DCD unit cell slots not understood: %s %s" % (ws, rs))
+    T["dcd_write_slots"] = [ws[str(i)] for i in range(6)]
+    T["dcd_read_slots"] = [rs[str(i)] for i in range(6)]
     T["xtc_magic"] = int(_one(r"#define MAGIC (\d+)", _src("mdtraj/formats/xtc/src/xdrfile_xtc.c"), "XTC magic number").group(1))
     s = _src("mdtraj/formats/xtc/xtc.pyx")
     pr = Fr(_one(r"prec = ([\d.]+) \* np\.ones\(n_frames, dtype=np\.float32\)", s, "xtc precision").group(1))
@@ -303,7 +331,15 @@ def render_tables(T):
           "Definition src_xtc_firstidx : Z := %d." % T["firstidx"],
           "Definition src_xtc_prec : Z := %d." % T["xtc_prec"],
           "Definition src_xtc_raw_max_atoms : Z := %d." % T["raw_max"],
-          "Definition src_xtc_magic : Z := %d." % T["xtc_magic"], ""]
+          "Definition src_xtc_magic : Z := %d." % T["xtc_magic"], "",
+          "(* dcdplugin.c: the quantity write_timestep stores in / read_next_timestep takes from unitcell[0..5]",
+          "   (angles: stored as sin((pi/2)/90 * (90 - angle)), read back as 90 - asin(.) * 90 / (pi/2)) *)",
+          "Definition src_dcd_write_slots : list string := [%s]." % "; ".join(q(x) for x in T["dcd_write_slots"]),
+          "Definition src_dcd_read_slots : list string := [%s]." % "; ".join(q(x) for x in T["dcd_read_slots"]), "",
+          "(* units attributes written by hdf5.py / netcdf.py / amberrst.py (AmberNetCDFRestartFile) *)",
+          "Definition src_unit_attrs : list (string * list (string * string)) := [%s]." % "; ".join(
+              "(%s, [%s])" % (q(k), "; ".join("(%s, %s)" % (q(a), q(b)) for a, b in sorted(T["unit_attrs"][k].items())))
+              for k in ("h5", "nc", "ncrst")), ""]
     return "\n".join(L)
 
 
